@@ -257,8 +257,8 @@ struct ChModel {
 enum Expect { EX_NONE, EX_SILENT, EX_AT_LEAST_ONE, EX_EXACTLY_ONE };
 
 static const char *cmdname(int c) {
-  static const char *n[] = {"?", "add", "enable", "disable", "del", "peer_write", "drain", "peer_close", "sleep"};
-  return (c >= 0 && c <= 8) ? n[c] : "?";
+  static const char *n[] = {"?", "add", "enable", "disable", "del", "peer_write", "drain", "peer_close", "sleep", "peer_shut_wr"};
+  return (c >= 0 && c <= 9) ? n[c] : "?";
 }
 
 static Verdict run_fire(const FireCase &c) {
@@ -299,6 +299,7 @@ static Verdict run_fire(const FireCase &c) {
     case E_PEER_WRITE: if (c.kind[ch] == 1 || c.kind[ch] == 2) { if (!m[ch].eof) m[ch].pending++; } break;
     case E_DRAIN: if (c.kind[ch] == 1 || c.kind[ch] == 2) m[ch].pending = 0; break;
     case E_PEER_CLOSE: if (c.kind[ch] == 1 || c.kind[ch] == 2) m[ch].eof = true; break;
+    case E_PEER_SHUT_WR: if (c.kind[ch] == 1) m[ch].eof = true; break;  // half close: the read side sees end of stream
     default: break;
     }
     uint8_t wait = 0;
@@ -339,6 +340,7 @@ static Verdict run_fire(const FireCase &c) {
       const c06b_step &s = o.s[i];
       int chx = cm.ch % C06_MAX_CH;
       if (cm.cmd == E_PEER_CLOSE && (c.kind[chx] == 1 || c.kind[chx] == 2)) eofm[chx].eof = true;
+      if (cm.cmd == E_PEER_SHUT_WR && c.kind[chx] == 1) { eofm[chx].eof = true; label("half_close"); }
       for (int j = 0; j < C06_MAX_CH; j++) {
         if (c.kind[j] == 0) continue;
         std::ostringstream tg;
@@ -405,7 +407,7 @@ static rc::Gen<FireCase> genFire() {
       cm.ch = *range<int>(0, nch - 1);
       int kd = c.kind[cm.ch];
       cm.cmd = (kd == 3) ? *rc::gen::weightedElement<int>({{4, E_ADD}, {2, E_ENABLE}, {3, E_DISABLE}, {2, E_DEL}, {2, E_SLEEP}})
-                         : *rc::gen::weightedElement<int>({{4, E_ADD}, {2, E_ENABLE}, {3, E_DISABLE}, {2, E_DEL}, {4, E_PEER_WRITE}, {2, E_DRAIN}, {1, E_PEER_CLOSE}, {1, E_SLEEP}});
+                         : *rc::gen::weightedElement<int>({{4, E_ADD}, {2, E_ENABLE}, {3, E_DISABLE}, {2, E_DEL}, {4, E_PEER_WRITE}, {2, E_DRAIN}, {1, E_PEER_CLOSE}, {1, E_PEER_SHUT_WR}, {1, E_SLEEP}});
       cm.outside = *rc::gen::weightedElement<int>({{3, 0}, {1, 1}});
       cm.flags = *rc::gen::weightedElement<int>({{3, 0}, {2, F_ONESHOT}, {2, F_DISPATCH}});
       cm.arg = *range<int>(1, 30);
